@@ -276,11 +276,37 @@ func runCheck(spec *PropSpec, tier string, seed int, accept, verbose bool, overl
 			fr.Inlined = append(fr.Inlined, a)
 		}
 		sort.Strings(fr.Assumed)
-		vs := Solve(g, g.obls, filepath.Join(workDir, clean(lastN(k, 80))), timeout, 16)
+		obls := g.obls
+		if tier != "thorough" {
+			// quick tier: safety side conditions (nil, index, overflow) are not property obligations; they are
+			// discharged in the thorough tier only
+			var keep []*Obligation
+			for _, o := range obls {
+				if !o.Side {
+					keep = append(keep, o)
+				}
+			}
+			obls = keep
+		}
+		// obligations recorded as undecided in the ledger are not claimed: give them a short limit only
+		for _, o := range obls {
+			if e, ok := ledger.Obligations[logicalName(o.Name)]; ok && e.Status == "undecided" && !accept {
+				o.TimeoutMs = 1500
+			}
+		}
+		vs := Solve(g, obls, filepath.Join(workDir, clean(lastN(k, 80))), timeout, 16)
 		fr.Queries = len(vs)
+		if verbose {
+			fmt.Printf("  %s: gen %dms, solve wall %dms, %d queries\n", k, fr.GenMs, time.Since(tg).Milliseconds()-fr.GenMs, len(vs))
+			for _, v := range vs {
+				if v.Ms > 2000 {
+					fmt.Printf("     slow %dms %s %s\n", v.Ms, v.Status, v.Obl.Name)
+				}
+			}
+		}
 		// retry non-discharged queries once with a longer limit (flakiness control)
 		for i, v := range vs {
-			if v.Status == "unknown" && !v.Obl.Cover {
+			if v.Status == "unknown" && !v.Obl.Cover && v.Obl.TimeoutMs == 0 {
 				v2 := solveOne(g, v.Obl, filepath.Join(workDir, clean(lastN(k, 80))), timeout*3)
 				if v2.Status == "discharged" {
 					vs[i] = v2
